@@ -69,6 +69,21 @@ CLAIMED = {
        "signal handlers between bytecodes of the main thread (assumed, not modelled); a body that itself raises is outside the model.",
   technique="Lean 4 proof (induction over files and over an interleaving relation of signals) + generated handler semantics + forked-child signal injection",
   ref="DESIGN.md §5 C20"),
+ "C01": dict(
+  text="Lean 4 theorems (Props/C01.lean, Props/C01b.lean) about the tag codecs, each a round trip encode -> strict spec decoder = identity for "
+       "ALL contents (any number of keys/values, any Unicode scalars incl. astral planes, lengths up to the formats' 32-bit fields): "
+       "utf8_roundtrip, utf16_roundtrip; vorbis_roundtrip (vendor + ordered (key, value) list, framing bit, any trailing bytes); ape_roundtrip "
+       "(header + items + footer, key/kind/value); mp4_item/freeform/text/integer/pair_roundtrip (ilst data atoms); asf_ecd/metadata/uint/bool/"
+       "text_roundtrip (Extended Content Description / Metadata(Library) attributes); ID3 frames via the C12 theorems. The encoders are tied "
+       "to mutagen byte for byte (tagc/tagc2 driver commands on what mutagen wrote), the strict decoders are the independent reading. "
+       "Container placement, Easy interfaces, save options and the reload comparison are decided on the real code: every taggable format x "
+       "sample and synthesised layouts x generated tag sets (all Unicode classes, blobs crossing 65025/65307/65536 and up to 16 MiB, numeric "
+       "extremes) x save options, compared with what was set (1) after reload and (2) through independent decoders (harness/refdec.py, "
+       "id3spec.py) that do not import mutagen.",
+  note="Trusted: Lean kernel; standard axioms; refdec.py/id3spec.py/walkers.py as the independent reading of the specifications; the "
+       "canonical forms applied by the oracle are exactly those the property names (listed in RULE).",
+  technique="Lean 4 proof (codec round trips against strict spec decoders) + byte-level model/implementation correspondence + independent decoders on the real output",
+  ref="DESIGN.md §5 C01"),
  "C04": dict(
   text="Partial. Lean 4 theorems (Props/C04.lean): the modelled decoders are TOTAL and their only failure is the format error - "
        "mpeg_decode_total (every 32-bit header: a decoded header or HeaderNotFound, indices always inside the generated tables), "
